@@ -118,7 +118,8 @@ CLAIMS["C09"] = dict(
 )
 CLAIMS["C20"] = dict(
     text="Decides the for-all-strings claim by abstract interpretation instead of enumerating short strings: each NameSanitizer name "
-    "function (class, module, method, tag class, tag attribute) is interpreted over a string-shape domain (may-be-empty, set of "
+    "function that is referenced anywhere in the package (class, module, method; the two tag functions have no caller and are "
+    "recorded as not armed until one appears) is interpreted over a string-shape domain (may-be-empty, set of "
     "character classes at position 0 and anywhere - ASCII upper/lower/digit/underscore/other plus four non-ASCII classes separating "
     "identifier-start, identifier-continue, \\w-but-not-identifier and other - guaranteed suffix, keyword-guard state) with transfer "
     "functions for exactly the regex and string operations the functions use (patterns parsed with re._parser). Obligations on the "
@@ -141,7 +142,9 @@ CLAIMS["C15"] = dict(
     "producer in STRING (values between quotes must be *known* identifier-like otherwise), backslash+triple-quote escaping in "
     "DOCSTRING (helpers' escapes are read from their bodies), removal of every line boundary in COMMENT. Alternative definitions "
     "intersect, chained re-definitions accumulate. DocumentationBlock fields are discharged only by central escaping in "
-    "render_docstring that covers all content lines. Emitted code must not be re-split with str.splitlines(). Decides that no "
+    "render_docstring that covers all content lines. Emitted code must not be re-split with str.splitlines(). The sanitizers trusted "
+    "in CODE positions are themselves proved to return identifiers for every input (string-shape abstract interpretation shared "
+    "with C20). Decides that no "
     "un-escaped flow exists in today's templates; it does not enumerate payloads, and evaluated-literal equality is argued via "
     "json.dumps's contract.",
     technique="context-sensitive taint analysis: template lexing for hole contexts + backward def-use origin tracing + inter-procedural parameter taint + per-context sanitizer obligations",
@@ -156,7 +159,8 @@ CLAIMS["C05"] = dict(
     "iter_sse_events_text, json.loads, HTTPError) has the registration of its import on every CFG path through it (dominator / "
     "post-dominator); (4) every `cast(T, response.json())` emit is preceded, on all paths, by tests that divert str / bytes to "
     "response.text / response.content; (5) no-content primary and secondary responses emit `return None`; (6) the streaming templates "
-    "yield every item of the runtime decoder unchanged (the decoders themselves are C18). Typed value equality for a given body is "
+    "yield every item of the runtime decoder unchanged, and the SSE decoder's accumulator typestate and field parsing hold (rules "
+    "shared with C18). Typed value equality for a given body is "
     "not decided.",
     technique="sibling normal-form comparison + single-value threading (def-use) + must-pass-through import obligations on the CFG + guard dominance",
     ref="3/C05",
@@ -205,7 +209,8 @@ CLAIMS["C03"] = dict(
     "field_name` and `fields_data.append`, and the two Meta maps are the swapped rendering of that one mapping; (4) the structure / "
     "unstructure function builders read Meta.key_transform_with_load / _with_dump and pass override(rename=) per field; (5) hook "
     "registration descends into every field type of every dataclass (must-pass-through on the field loop, unconditional registration "
-    "inside generics/unions).",
+    "inside generics/unions); (6) colliding field names are de-duplicated soundly (test / rename until unused / record), so the "
+    "Meta maps are bijections.",
     technique="table agreement between generator and converter + inverse-codec pairing + must-pass-through on the property loop + recursion-shape checks",
     ref="3/C03",
 )
@@ -240,7 +245,8 @@ CLAIMS["C04"] = dict(
     "uses; (5) required parameters use the plain entry and optional ones the conditional unpack template; (6) URL builder, "
     "implementation method and signature use the same sanitizer for path variables; (7) the request body argument is emitted under "
     "no other condition than 'the operation has a body of that content type' (not, e.g., the HTTP method) and refers only to "
-    "variables that the URL/args templates define.",
+    "variables that the URL/args templates define; (8) in the bundled transport per-request headers are layered over transport "
+    "defaults, so a supplied header parameter reaches the wire with the caller's value (rule shared with C17).",
     technique="exhaustiveness over parameter locations + data-dependence of emitted call arguments + guard-conjunct analysis on the CFG + provenance of template holes",
     ref="3/C04",
 )
@@ -253,7 +259,9 @@ CLAIMS["C02"] = dict(
     "iteration of _parse_properties assigns the property or takes one of two enumerated skips; the allOf merge takes `properties` and "
     "`required` from every member on every path; the dataclass generator's property loop has no skip and its list is unfiltered; (4) "
     "required-ness comes only from `prop_name in schema.required` and defaults are computed only under `not is_required`; (5) every "
-    "path from construction to `return schema_ir` registers the schema unless one of four enumerated flags holds.",
+    "path from construction to `return schema_ir` registers the schema unless one of four enumerated flags holds; (6) the cycle "
+    "tracker's enter/exit calls balance on every path of _parse_schema (a leaked depth turns later, unrelated schemas into "
+    "zero-field placeholders; typestate shared with C08).",
     technique="return-value provenance on the CFG + non-interference (name-content) lint + must-pass-through on loop bodies with enumerated bypasses",
     ref="3/C02",
 )
